@@ -6,6 +6,7 @@ import (
 	"github.com/pkg/errors"
 
 	"github.com/liftbridge-io/liftbridge/server/logger"
+	"github.com/liftbridge-io/liftbridge/server/verifhook"
 )
 
 // computeTTL calculates the age cutoff for messages when there is an age
@@ -210,6 +211,9 @@ func (c *deleteCleaner) deleteSegments(segments []*segment) error {
 				firstErr = err
 			}
 			// Continue trying to delete other segments
+		}
+		if verifhook.Enabled {
+			verifhook.Point("clean.afterDeleteSeg") // nolint: errcheck
 		}
 	}
 
